@@ -7,6 +7,7 @@ import random
 import re
 import tokenize
 
+import c08_literals as lits
 import corpus
 import util
 from framework import pmap
@@ -18,6 +19,8 @@ THEOREMS = [
     'Pfst.C08.docstr_dedent_roundtrip', 'Pfst.C08.docstr_roundtrip_partial',
     'Pfst.C08.comment_roundtrip', 'Pfst.C08.comment_roundtrip_full', 'Pfst.C08.comment_delete',
     'Pfst.C08.comment_put_refuses', 'Pfst.C08.comment_put_one_line',
+    'Pfst.C08.reindent_roundtrip', 'Pfst.C08.indentBlock_fixed', 'Pfst.C08.bytes_never_indentable',
+    'Pfst.C08.strict_only_first',
     'Pfst.C08.put_back', 'Pfst.C08.put_copy', 'Pfst.C08.replace_self',
 ]
 RULE = ('(a) repr_str_multiline on ALL strings over the 12-character alphabet {\' " \\ LF TAB CR NUL a SPACE e-acute NBSP '
@@ -29,7 +32,12 @@ RULE = ('(a) repr_str_multiline on ALL strings over the 12-character alphabet {\
         'then get_docstr on def / async method / tab-indented class / module / existing docstring for the same strings '
         '(CPython tokenizer + literal_eval + full reparse as judges); put/get_line_comment on statements of corpus '
         'programs; replace every sampled node by its copy / pure AST / own source, cut and put back elements and slices '
-        'of list fields, k times, ast.dump before = after; own_src reparsed. distinct = distinct (operation, input); '
+        'of list fields, k times, ast.dump before = after; own_src reparsed; a deterministic family of programs with '
+        'multi-line str / bytes / raw-bytes expression statements (triple-quoted, backslash-continued, parenthesised; first / '
+        'middle / last in def, class, if, try and nested blocks; continuation lines indented not at all / less / as / more '
+        'than the block): own_src, copy, cut + put back, replace-by-copy of the statement and of every enclosing statement, '
+        'literal values compared through CPython (only docstring text may differ), pieces must be what their source denotes; '
+        '_get_indentable_lns / _indent_lns / _dedent_lns vs the Lean predicate on these and on corpus programs. distinct = distinct (operation, input); '
         'non-trivial = the written text needs quoting/escaping decisions or the operation changes the source')
 TRUSTED = [
     'modelled: astutil.repr_str_multiline and _escape_char (unicode_escape codec and repr() written out; str.isprintable, '
@@ -40,6 +48,9 @@ TRUSTED = [
     'modelled as specification (not pfst code): CPython reading of a triple-quoted literal (newline normalisation, '
     'closing-quote search, escapes \\\\ \\\' \\" \\n \\r \\t \\<newline> \\xNN \\uNNNN \\UNNNNNNNN); checked against '
     'ast.literal_eval on random literals every run',
+    'modelled: fst_core._get_indentable_lns (which lines of a node may be re-indented: all but the continuation lines of '
+    'multi-line string tokens that are not docstrings; docstr False / True / strict) and the line edits of _indent_lns / '
+    '_dedent_lns; the list of multi-line string tokens and their kinds is computed with CPython tokenize + ast',
     'not modelled: where pfst finds the end of a statement / block header (the model gets line[end_col:] from pfst), the '
     'put_line_comment path that splits a logical line when another statement follows, _put_slice / code_as / reparse '
     'behind put_docstr and behind the structural round trips (these are exercised by the sweep only, with ast.dump and a '
@@ -482,6 +493,10 @@ def correspondence(ctx):
     dstrs = _all_strings(3) + _random_strings(rng, 600 if ctx.quick else 6000, lo=1, hi=30)
     _corr_doc(ctx, dstrs)
     _corr_comment(ctx)
+    lp = [s for _, s in lits.programs()]
+    if ctx.quick:
+        lp = rng.sample(lp, 500)
+    _corr_indentable(ctx, lp + _programs(ctx, 120 if ctx.quick else 1200, 10 if ctx.quick else 150))
 
 
 # ---- sweep: docstrings ---------------------------------------------------------------------------------------------
@@ -686,7 +701,9 @@ def _diff_class(d1, d0, kind, src=None):
         return 'Expr-str', 'docstr-value-reindented'
     if src is not None and '\\\n' in src and _ANYWS_RE.sub('', d1) == _ANYWS_RE.sub('', d0):
         # a backslash-newline inside a docstring: the indentation of the next line is part of the value without a
-        # newline before it; same mechanism, same class
+        # newline before it; same mechanism, same classes
+        if _underindented_docstr(src):
+            return 'Expr-str', 'docstr-underindented'
         return 'Expr-str', 'docstr-value-reindented'
     return kind, 'dump-differs'
 
@@ -866,6 +883,177 @@ def _sweep_struct(ctx, progs, per):
         ctx.sample({'struct': {k: v for k, v in res[0][0][4].items() if k != 'src'}, 'src': res[0][0][4]['src'][:200]})
 
 
+# ---- indentable lines: correspondence with Pfst.Indentable, and value-level round trips of literal statements -----
+
+_MODES = [(False, 0), (True, 1), ('strict', 2)]
+
+
+def _indentable_items(src):
+    """cases for one program: _get_indentable_lns of the root and of statements, every docstr mode, skip 0/1; plus the
+    text after _indent_lns / _dedent_lns of the whole tree"""
+    try:
+        strs = lits.string_tokens(src)
+        root = _mk(src)
+    except Exception:
+        return []
+    out = []
+    nodes = [root] + [f for f in root.walk(True) if isinstance(f.a, ast.stmt)][:12]
+    for mode, mi in _MODES:
+        items, real = [], []
+        for f in nodes:
+            for skip in (0, 1):
+                if f is root:
+                    lo, hi = 0, len(root.lines) - 1
+                else:
+                    lo, hi = f.bln, f.bend_ln
+                items.append([lo, skip, hi])
+                real.append(sorted(f._get_indentable_lns(skip, docstr=mode)))
+        case = {'f': 'C08.indentable', 'mode': mi, 'strs': strs, 'items': items}
+        impl = {'lns': real}
+        # text: indent the whole program, then dedent it again
+        r2 = _mk(src)
+        try:
+            r2._indent_lns('  \t', skip=0, docstr=mode)
+            ind_lines = [str(l) for l in r2.lines]
+            r2._dedent_lns('  \t', skip=0, docstr=mode)
+            ded_lines = [str(l) for l in r2.lines]
+            case.update({'ind': _cps('  \t'), 'lo': 0, 'lines': [_cps(l) for l in src.split('\n')]})
+            impl.update({'indent': ind_lines, 'dedent_of_indent': ded_lines})
+        except Exception as e:
+            impl['text_exc'] = type(e).__name__
+        out.append((case, impl, src, mode))
+    return out
+
+
+def _corr_indentable(ctx, progs):
+    name = '_get_indentable_lns / _indent_lns / _dedent_lns vs Pfst.Indentable'
+    triples = [x for lst in pmap(_indentable_items, progs) for x in lst]
+    cases = [c for c, _, _, _ in triples]
+    try:
+        outs = ctx.lean(cases)
+    except Exception as e:
+        ctx.brk('correspondence', name, f'driver error: {e}')
+        return
+    bad = 0
+    for (case, impl, src, mode), mo in zip(triples, outs):
+        ctx.corr_cases += 1
+        m = mo.get('out', mo)
+        ctx.count('indentable:' + repr(mode) + repr(src), bool(case['strs']))
+        ok = isinstance(m, dict) and m.get('lns') == impl['lns']
+        if ok and 'indent' in impl:
+            mi = [_str(l) for l in m.get('indent', [])]
+            # dedent ∘ indent on the model side is the identity (theorem reindent_roundtrip); the implementation must agree
+            ok = mi == impl['indent'] and impl['dedent_of_indent'] == src.split('\n')
+        if not ok:
+            bad += 1
+            _disagree(ctx, name, {'src': src, 'docstr': mode, 'strs': case['strs']}, impl,
+                      m if not isinstance(m, dict) else {'lns': m.get('lns'), 'indent': [_str(l) for l in m.get('indent', [])]})
+    ctx.tally('correspondence_cases', name)
+    ctx.dist['correspondence_cases'][name] = len(cases)
+    if bad:
+        ctx.brk('correspondence', name, f'{bad}/{len(cases)} differ; first: ' + repr(_FIRST.get(name))[:1200])
+
+
+def _consistent(piece):
+    """a copied / cut piece must be what its own source denotes (CPython), values included; None if so"""
+    a = piece.a
+    try:
+        parsed = ast.parse(piece.src)
+    except SyntaxError as e:
+        return f'source of the piece does not parse: {e}'
+    if not isinstance(a, ast.Module):
+        if len(parsed.body) != 1:
+            return None
+        parsed = parsed.body[0]
+    d1, d2 = ast.dump(a), ast.dump(parsed)
+    if d1 != d2:
+        return 'piece AST is not what its source denotes: ' + util.first_diff(d1, d2)
+    return None
+
+
+def _piece_stmt(piece):
+    a = piece.a
+    return a.body[0] if isinstance(a, ast.Module) and len(a.body) == 1 else a
+
+
+def _lit_one(src, path, op, lk, d0):
+    """one value-level round trip; returns (kind, (failure-class, detail) | None)"""
+    root = _mk(src)
+    f = _de_path(root, path)
+    want = lits.nodoc_dump(f.a)
+    kind = lk
+    try:
+        if op == 'own_src':
+            s = f.own_src()
+            got = ast.parse(s)
+            if len(got.body) != 1 or lits.nodoc_dump(got.body[0]) != want:
+                return kind, ('value-changed', f'own_src() denotes another node: {s!r}')
+        elif op == 'copy':
+            c = f.copy()
+            r0 = _consistent(c)
+            if r0:
+                return kind, ('piece-inconsistent', r0 + f' piece source: {c.src!r}')
+            if lits.nodoc_dump(_piece_stmt(c)) != want:
+                return kind, ('value-changed', f'copy() is another node: {c.src!r}')
+        else:
+            for _ in range(2):
+                f = _de_path(root, path)
+                parent = f.parent
+                name, idx = path[-1]
+                if op == 'cut-slice':
+                    piece = parent.get_slice(idx, idx + 1, name, cut=True)
+                    r0 = _consistent(piece)
+                    if r0:
+                        return kind, ('piece-inconsistent', r0 + f' piece source: {piece.src!r}')
+                    parent.put_slice(piece, idx, idx, name)
+                else:
+                    f.replace(f.copy())
+                d1 = ast.dump(root.a)
+                if d1 != d0:
+                    kind, fc = _diff_class(d1, d0, lk, src)
+                    return kind, (fc, util.first_diff(d1, d0) + ' new source: ' + root.src[:300])
+                d = util.tree_equals_parse(root)
+                if d:
+                    return kind, ('tree!=parse', d[:300] + ' new source: ' + root.src[:300])
+    except Exception as ex:
+        nm = type(ex).__name__
+        return kind, (('refused', str(ex)[:120]) if nm in REFUSALS else ('crash:' + nm, str(ex)[:200]))
+    return kind, None
+
+
+def _lit_case(arg):
+    """value-level round trips of one literal program: own_src / copy / cut+put back / replace-by-copy of the literal
+    statement and of every enclosing statement"""
+    meta, src = arg
+    out = []       # (op, kind, failure-class|None|'refused', detail, witness, meta)
+    lk = 'Expr-bytes' if meta['bytes'] else 'Expr-str'
+    d0 = ast.dump(_mk(src).a)
+    for path in lits.target_paths(meta):
+        for op in ('own_src', 'copy', 'cut-slice', 'replace-copy'):
+            w = {'op': 'lit-' + op, 'src': src, 'path': path, 'lk': lk}
+            kind, r = _lit_one(src, path, op, lk, d0)
+            out.append((op, kind, r[0] if r else None, r[1] if r else '', w, meta))
+    return out
+
+
+def _sweep_literals(ctx, progs):
+    n = ref = 0
+    for lst in pmap(_lit_case, progs):
+        for op, kind, r, detail, w, meta in lst:
+            n += 1
+            ctx.count('lit:' + repr(w), True)
+            ctx.tally('literal_stmt', ('bytes ' if meta['bytes'] else 'str ') + meta['form'])
+            if r == 'refused':
+                ref += 1
+            elif r:
+                # cut + put back / replace of str docstrings share the signatures of the structural sweep (C08-F5)
+                sop = op if kind == 'Expr-str' and r.startswith('docstr-') else 'lit-' + op
+                ctx.fail(f'C08|{sop}|{kind}|{r}', f'{op} around a multi-line {kind[5:]} expression statement '
+                         f'({meta["form"]}, block {meta["block"]}, continuation indent {meta["ci"]!r}): {r}: {detail}', w)
+    ctx.notes['literal_roundtrips'] = n
+    ctx.notes['literal_refused'] = ref
+
+
 def _programs(ctx, n, stdlib):
     rng = random.Random(ctx.rng.random())
     return corpus.programs(rng, n, stdlib=stdlib)
@@ -879,6 +1067,8 @@ def sweep(ctx):
     extra = _random_strings(rng, 400 if q else 4000, lo=1, hi=60) + surr + rng.sample(_fragment_strings(4), 600 if q else 4000) + \
         ['line one\n  indented\n\n\tTabbed\nlast\n', 'a\n' * 5, 'x' * 300, ' lead', '\tlead', '\n\nx', 'a\\\nb', 'a\\']
     _sweep_doc(ctx, strs, extra)
+    lp = lits.programs()
+    _sweep_literals(ctx, rng.sample(lp, 700) if q else lp)
     progs = _programs(ctx, 250 if q else 2500, 20 if q else 200)
     _sweep_comments(ctx, progs, 8 if q else 12)
     _sweep_struct(ctx, progs, 8 if q else 12)
@@ -897,6 +1087,8 @@ def search(ctx):
             _search_comment_hint(ctx, c)
     strs = hint_strs + _fragment_strings(4) + _all_strings(4) + _random_strings(rng, 6000, lo=1, hi=80)
     _sweep_doc(ctx, [], strs[:16000])
+    if not ctx.failures:
+        _sweep_literals(ctx, lits.programs())
     if not ctx.failures:
         progs = _programs(ctx, 1200, 100)
         _sweep_comments(ctx, progs, 12)
@@ -931,6 +1123,11 @@ def replay(ctx, data):
     if op == 'docstr':
         r = _doc_one(w['host'], w['s'])
         if r:
+            ctx.fail('replay', f'{r[0]}: {r[1]}', w)
+        return
+    if op.startswith('lit-'):
+        kind, r = _lit_one(w['src'], w['path'], op[4:], w.get('lk', 'Expr-str'), ast.dump(_mk(w['src']).a))
+        if r and r[0] != 'refused':
             ctx.fail('replay', f'{r[0]}: {r[1]}', w)
         return
     root = _mk(w['src'])
